@@ -93,7 +93,7 @@ func ruleQ1(c *Ctx) {
 	// URIRawCmp delegates with nil outs
 	if fd := c.Decls["URIRawCmp"]; fd != nil {
 		s := c.src(fd.Body)
-		c.check(strings.Contains(s, "URIParseCmp(rawURI1, rawURI2, flags, nil, nil)"), "Q1", "URIRawCmp", fd.Pos(), "raw compare is the parse-and-compare entry point with no outs")
+		c.check(patIn(s, "URIParseCmp(@a, @b, @f, nil, nil)"), "Q1", "URIRawCmp", fd.Pos(), "raw compare is the parse-and-compare entry point with no outs")
 	}
 }
 
@@ -679,5 +679,5 @@ func ruleQ7(c *Ctx) {
 	c.check(ok, "Q7", "URIHdrsLstEq:counts", fd.Pos(), "different header counts return false before the one-directional containment loop")
 	// the loop is a containment test of l1 in l2: every l1 header must be found
 	body := c.src(fd.Body)
-	c.check(strings.Contains(body, "if !found { return false }"), "Q7", "URIHdrsLstEq:containment", fd.Pos(), "an l1 header without an equal-named, equal-valued l2 header returns false")
+	c.check(patIn(body, "if !@f { return false }"), "Q7", "URIHdrsLstEq:containment", fd.Pos(), "an l1 header without an equal-named, equal-valued l2 header returns false")
 }
